@@ -47,13 +47,25 @@ func raceChildMain() {
 		}
 		out.Violations += len(r.Violations)
 	}
+	for i := 0; i < n/2; i++ {
+		sp := caseSpec{ID: 910000 + i, Mode: "multi", Producers: 2, Entries: 400, CPInterval: 5, BufSize: 10000, MaxPayload: 256,
+			Seed: seed*1000 + 500 + uint64(i), Readers: 3 + i%2, Victims: 1, Slow: i%2 == 0, MaxEvents: 200}
+		r := runCase(sp)
+		out.Cases++
+		out.Applied += r.Applied
+		out.Queued += r.Queued
+		if r.Inconcl != "" {
+			out.Inconcl++
+		}
+		out.Violations += len(r.Violations)
+	}
 	b, _ := json.Marshal(out)
 	fmt.Println("RACECHILD " + string(b))
 }
 
 // pathFuncs: functions on the replication data path. A data race whose two
 // accesses are both in these is a race on the sequence / queue / stream state.
-var raceDataPath = regexp.MustCompile(`replication\.\(\*Sender\)\.(Replicate|distributionLoop|broadcastEntry|sendToReader|emitCheckpointLocked)|replication\.\(\*Receiver\)\.(receiveLoop|applyEntry|ackLoop)|wal\.\(\*Writer\)\.(AppendRaw|AppendRawWithMeta|Append)\b`)
+var raceDataPath = regexp.MustCompile(`replication\.\(\*Sender\)\.(Replicate|distributionLoop|broadcastEntry|sendToReader|emitCheckpointLocked|RemoveReader|ActivateReader|PrepareReader|receiveLoop)|replication\.\(\*Receiver\)\.(receiveLoop|applyEntry|ackLoop)|wal\.\(\*Writer\)\.(AppendRaw|AppendRawWithMeta|Append)\b`)
 
 var raceFrame = regexp.MustCompile(`^\s{2}(\S+)\(`)
 
